@@ -86,7 +86,7 @@ func NewCommentReader(r io.Reader, startMatches, endMatches [][]byte, isComments
 
 		var extra int
 		left := data[pos+len(startMatches[index]):]
-		if extra = bytes.Index(left, endMatches[index]); extra == -1 {
+		if extra = indexUnescaped(left, endMatches[index], !isComments[index]); extra == -1 {
 			if atEOF {
 				if requiredMatches[index] {
 					return 0, nil, commentNotMatch
@@ -140,6 +140,25 @@ func (v *commentReader) Read(p []byte) (n int, err error) {
 	}
 
 	return
+}
+
+// get the index of sep in s. For quoted text (not comments), a backslash
+// escapes the next byte, so an escaped end mark does not terminate the text.
+func indexUnescaped(s, sep []byte, escape bool) int {
+	if !escape {
+		return bytes.Index(s, sep)
+	}
+
+	for i := 0; i < len(s); i++ {
+		if s[i] == '\\' {
+			i++
+			continue
+		}
+		if bytes.HasPrefix(s[i:], sep) {
+			return i
+		}
+	}
+	return -1
 }
 
 // get the first match in flags.
